@@ -12,15 +12,20 @@
 EXTENDS GkdiGraph, TLC
 
 CONSTANTS EnvPositions,   \* set of <<a, b>> envelope positions explored
-          Requests        \* set of <<r1, r2>> requested positions explored (may be out of range)
+          Requests,       \* set of <<r1, r2>> requested positions explored (may be out of range)
+          L0Offsets       \* requested L0 minus the L0 of the seed material (0 = same L0 interval)
 
-VARIABLES env, r1, r2, pc, cl1, cl2, k1, k2, reseed, calls
+VARIABLES dl0, env, r1, r2, pc, cl1, cl2, k1, k2, reseed, calls
 
-vars == <<env, r1, r2, pc, cl1, cl2, k1, k2, reseed, calls>>
+vars == <<dl0, env, r1, r2, pc, cl1, cl2, k1, k2, reseed, calls>>
 
 StartEnvs == UNION {Shapes(p[1], p[2]) : p \in EnvPositions} \cup {RootEnv}
 
+(* seed material of another L0 interval covers nothing: the hierarchies of two L0s are unrelated *)
+CoversReq == dl0 = 0 /\ Covers(env, r1, r2)
+
 Init ==
+  /\ dl0 \in L0Offsets
   /\ env \in StartEnvs
   /\ \E q \in Requests : r1 = q[1] /\ r2 = q[2]
   /\ pc = "start"
@@ -33,19 +38,19 @@ Init ==
 (* "reports an error; it neither returns a key nor loops")                  *)
 Start ==
   /\ pc = "start"
-  /\ IF Covers(env, r1, r2)
+  /\ IF CoversReq
        THEN /\ pc' = "adjust"
             /\ reseed' = (env.b = Top \/ env.a # r1)
        ELSE /\ pc' = "reject"
             /\ UNCHANGED reseed
-  /\ UNCHANGED <<env, r1, r2, cl1, cl2, k1, k2, calls>>
+  /\ UNCHANGED <<dl0, env, r1, r2, cl1, cl2, k1, k2, calls>>
 
 (* "if l2 != 31 and l1 != request_l1: l1 -= 1"  (l1_key is for a-1)          *)
 Adjust ==
   /\ pc = "adjust"
   /\ cl1' = IF env.b # Top /\ env.a # r1 THEN cl1 - 1 ELSE cl1
   /\ pc' = "l1walk"
-  /\ UNCHANGED <<env, r1, r2, cl2, k1, k2, reseed, calls>>
+  /\ UNCHANGED <<dl0, env, r1, r2, cl2, k1, k2, reseed, calls>>
 
 (* "while l1 != request_l1: l1 -= 1; l1_key = kdf(l1_key, ctx(l0, l1, -1))"  *)
 L1Step ==
@@ -54,13 +59,13 @@ L1Step ==
   /\ cl1' = cl1 - 1
   /\ k1' = Derive(k1, cl1 - 1, -1)          \* the KDF is applied to the key in hand with the counter's context
   /\ calls' = calls + 1
-  /\ UNCHANGED <<env, r1, r2, pc, cl2, k2, reseed>>
+  /\ UNCHANGED <<dl0, env, r1, r2, pc, cl2, k2, reseed>>
 
 L1Done ==
   /\ pc = "l1walk"
   /\ cl1 = r1
   /\ pc' = "reseed"
-  /\ UNCHANGED <<env, r1, r2, cl1, cl2, k1, k2, reseed, calls>>
+  /\ UNCHANGED <<dl0, env, r1, r2, cl1, cl2, k1, k2, reseed, calls>>
 
 (* "if reseed_l2: l2 = 31; l2_key = kdf(l1_key, ctx(l0, l1, 31))"            *)
 Reseed ==
@@ -71,7 +76,7 @@ Reseed ==
             /\ calls' = calls + 1
        ELSE UNCHANGED <<cl2, k2, calls>>
   /\ pc' = "l2walk"
-  /\ UNCHANGED <<env, r1, r2, cl1, k1, reseed>>
+  /\ UNCHANGED <<dl0, env, r1, r2, cl1, k1, reseed>>
 
 (* "while l2 != request_l2: l2 -= 1; l2_key = kdf(l2_key, ctx(l0, l1, l2))"  *)
 L2Step ==
@@ -80,13 +85,13 @@ L2Step ==
   /\ cl2' = cl2 - 1
   /\ k2' = Derive(k2, cl1, cl2 - 1)
   /\ calls' = calls + 1
-  /\ UNCHANGED <<env, r1, r2, pc, cl1, k1, reseed>>
+  /\ UNCHANGED <<dl0, env, r1, r2, pc, cl1, k1, reseed>>
 
 L2Done ==
   /\ pc = "l2walk"
   /\ cl2 = r2
   /\ pc' = "done"
-  /\ UNCHANGED <<env, r1, r2, cl1, cl2, k1, k2, reseed, calls>>
+  /\ UNCHANGED <<dl0, env, r1, r2, cl1, cl2, k1, k2, reseed, calls>>
 
 Next == Start \/ Adjust \/ L1Step \/ L1Done \/ Reseed \/ L2Step \/ L2Done
 
@@ -104,7 +109,7 @@ TypeOK ==
 ResultIsRequested == pc = "done" => k2 = L2(r1, r2)
 
 (* error exactly when the seed material does not cover the request            *)
-RejectIffNotCovered == Terminal => (pc = "reject" <=> ~Covers(env, r1, r2))
+RejectIffNotCovered == Terminal => (pc = "reject" <=> ~CoversReq)
 
 (* bounded work                                                              *)
 BoundedKdf == calls <= MaxKdfCalls
